@@ -244,7 +244,7 @@ def ob_roundtrip(run, interp):
     from rpyc.core.protocol import Connection, DEFAULT_CONFIG
     import rpyc
     classes = builtin_exception_classes()
-    ARGS = ["()", "(int,)", "(text, nonplain)", "(tuple,)"]
+    ARGS = ["()", "(int,)", "(text, nonplain)", "(tuple,)", "(tuple, nonplain, frozenset)"]
 
     def ob(o):
         o.symbolic = ["include_local_traceback, include_local_version (sender): Bool", "the three receiver switches: Bool",
@@ -261,8 +261,11 @@ def ob_roundtrip(run, interp):
                 args = (SymInt(c.fresh_int("arg")),)
             elif ak == 2:
                 args = ("text", Weird())
-            else:
+            elif ak == 3:
                 args = ((1, SymInt(c.fresh_int("arg"))),)
+            else:
+                # immutable containers next to a non-plain argument: the containers are kept, only the other is described
+                args = ((1, 2), Weird(), frozenset((3,)))
             try:
                 e = cls.__new__(cls)
                 e.args = args
@@ -375,7 +378,7 @@ clsname, ak, (ilt, ilv) = %r, %d, %r
 class Weird(object):
     def __repr__(self): return "<weird>"
 cls = getattr(builtins, clsname)
-args = [(), (7,), ("text", Weird()), ((1, 7),)][ak]
+args = [(), (7,), ("text", Weird()), ((1, 7),), ((1, 2), Weird(), frozenset((3,)))][ak]
 try:
     e = cls.__new__(cls); e.args = args
 except TypeError:
@@ -397,7 +400,7 @@ if cls is StopIteration:
     if not (out is StopIteration or isinstance(out, StopIteration)): bad.append("StopIteration -> %%r" %% (out,))
 else:
     if not isinstance(out, cls): bad.append("arrived as %%r" %% (type(out).__mro__[:3],))
-    want = tuple(a if type(a) in (int, str, tuple) else repr(a) for a in args)
+    want = tuple(a if type(a) in (int, str, tuple, frozenset) else repr(a) for a in args)
     if tuple(out.args) != want: bad.append("args %%r" %% (out.args,))
     if hasattr(out, "_private_attr"): bad.append("private attribute disclosed")
     tbt = getattr(out, "_remote_tb", "")
